@@ -18,7 +18,8 @@ CONSTANTS N,          \* number of named types: "a", "b" (, "c")
           KeySet,     \* e.g. {"k1", "k2"}
           MaxList,    \* max length of an allOf list
           APs,        \* additionalProperties settings explored, subset of {"absent","true","false","string","any"}
-          Nest        \* BOOLEAN: may the value of an own key be an object that has an allOf list of its own?
+          Nest,       \* BOOLEAN: may the value of an own key be an object that has an allOf list of its own?
+          RootChoice  \* BOOLEAN: the root is a choice `@x | @y` of two of the types (instead of an object)
 
 Names == IF N = 2 THEN {"a", "b"} ELSE {"a", "b", "c"}
 NameSeq == IF N = 2 THEN <<"a", "b">> ELSE <<"a", "b", "c">>
@@ -43,8 +44,14 @@ vars == <<def, root, done>>
 NoRoot == [kind |-> "none", own |-> <<>>, allOf |-> <<>>, ap |-> "absent"]
 Init == def = <<>> /\ root = NoRoot /\ done = FALSE
 DefineType(d) == /\ Len(def) < N /\ def' = Append(def, d) /\ UNCHANGED <<root, done>>
-DefineRoot(r) == /\ Len(def) = N /\ ~done /\ r.kind = "object" /\ root' = r /\ done' = TRUE /\ UNCHANGED def
-Next == (\E d \in Defs : DefineType(d)) \/ (\E r \in Objects : DefineRoot(r))
+DefineRoot(r) == /\ ~RootChoice /\ Len(def) = N /\ ~done /\ r.kind = "object" /\ root' = r /\ done' = TRUE /\ UNCHANGED def
+\* the root is `@x | @y`: the property listing of the project is then the listing of each alternative (allOf holds them)
+DefineRootChoice(x, y) == /\ RootChoice /\ Len(def) = N /\ ~done /\ x # y
+                          /\ root' = [kind |-> "choice", own |-> <<>>, allOf |-> <<x, y>>, ap |-> "absent"]
+                          /\ done' = TRUE /\ UNCHANGED def
+Next == \/ \E d \in Defs : DefineType(d)
+        \/ \E r \in Objects : DefineRoot(r)
+        \/ \E x, y \in Names : DefineRootChoice(x, y)
 Spec == Init /\ [][Next]_vars
 
 Idx(n) == CHOOSE i \in 1..N : NameSeq[i] = n
@@ -57,7 +64,7 @@ RECURSIVE Anc(_, _)
 Anc(S, k) == IF k = 0 THEN S ELSE Anc(S \cup UNION {IF D(n).kind = "object" THEN Parents(D(n)) ELSE {} : n \in S}, k - 1)
 Ancestors(o) == Anc(Parents(o), N)              \* all names reachable through allOf lists
 NestedOf(o) == {NestedObj(o.own[i]) : i \in {j \in 1..Len(o.own) : o.own[j].sub # <<>>}}
-TopObjects == {root} \cup {D(n) : n \in {m \in Registered : D(m).kind = "object"}}
+TopObjects == (IF root.kind = "object" THEN {root} ELSE {}) \cup {D(n) : n \in {m \in Registered : D(m).kind = "object"}}
 AllObjects == TopObjects \cup UNION {NestedOf(o) : o \in TopObjects}
 \* what a type needs to be complete: the types it lists and the types its nested heirs list
 Needs(o) == Parents(o) \cup UNION {Parents(x) : x \in NestedOf(o)}
@@ -65,7 +72,8 @@ RECURSIVE Dep(_, _)
 Dep(S, k) == IF k = 0 THEN S ELSE Dep(S \cup UNION {IF D(n).kind = "object" THEN Needs(D(n)) ELSE {} : n \in S}, k - 1)
 
 \* ---- refusal classes (over the root and every registered type)
-Missing   == \E o \in AllObjects : \E n \in Ancestors(o) : D(n).kind = "withheld"
+Missing   == \/ \E o \in AllObjects : \E n \in Ancestors(o) : D(n).kind = "withheld"
+             \/ root.kind = "choice" /\ \E i \in 1..2 : D(root.allOf[i]).kind = "withheld"
 NonObject == \E o \in AllObjects : \E n \in Ancestors(o) : D(n).kind = "scalar"
 Cyclic    == \E n \in Registered : D(n).kind = "object" /\ n \in Dep(Needs(D(n)), N)
 
@@ -112,13 +120,13 @@ OriginD(o, name, depth) ==      \* sequence parallel to MergeD(o, depth): [via, 
 \* an accepted project has no duplicate key in any merged object
 MergeHasNoDuplicateKeys == (done /\ Accepted) => \A o \in AllObjects : ~HasDup(Merge(o))
 \* merging is insensitive to the depth bound once it exceeds the longest chain
-MergeStable == (done /\ ~Structural) => MergeD(root, N + 2) = MergeD(root, N + 3)
+MergeStable == (done /\ ~Structural /\ root.kind = "object") => MergeD(root, N + 2) = MergeD(root, N + 3)
 \* an object without an allOf list keeps exactly its own keys
-NoListNoChange == (done /\ ~Structural /\ root.allOf = <<>>) =>
+NoListNoChange == (done /\ ~Structural /\ root.kind = "object" /\ root.allOf = <<>>) =>
                      /\ Len(Merge(root)) = Len(root.own)
                      /\ \A i \in 1..Len(root.own) : Merge(root)[i].k = root.own[i].k /\ Merge(root)[i].opt = root.own[i].opt
 \* a nested heir always keeps its own key first and gains exactly the merged keys of the listed type
-NestedHeirGains == (done /\ ~Structural) =>
+NestedHeirGains == (done /\ ~Structural /\ root.kind = "object") =>
                      \A i \in 1..Len(root.own) : root.own[i].sub # <<>> =>
                          LET nk == Merge(root)[i].nk m == Merge(D(root.own[i].sub[1])) IN
                          /\ nk[1] = "n" /\ Len(nk) = 1 + Len(m)
@@ -126,6 +134,10 @@ NestedHeirGains == (done /\ ~Structural) =>
 
 Emit == done => PrintT(ToJson([types |-> [i \in 1..N |-> [name |-> NameSeq[i], d |-> def[i]]], root |-> root,
                                refusals |-> Refusals,
-                               keys |-> IF Structural THEN <<>> ELSE Merge(root),
-                               origin |-> IF Structural THEN <<>> ELSE OriginD(root, "root", N + 2)]))
+                               keys |-> IF Structural \/ root.kind # "object" THEN <<>> ELSE Merge(root),
+                               origin |-> IF Structural \/ root.kind # "object" THEN <<>> ELSE OriginD(root, "root", N + 2),
+                               \* a choice root: the listing of each alternative that is an object
+                               alts |-> IF Structural \/ root.kind # "choice" THEN <<>>
+                                        ELSE [i \in 1..2 |-> [name |-> root.allOf[i],
+                                                              keys |-> IF D(root.allOf[i]).kind = "object" THEN Merge(D(root.allOf[i])) ELSE <<>>]]]))
 ===============================================================================
